@@ -1,5 +1,5 @@
 import Hostd.Drive.Txn
 open Hostd
 def main (args : List String) : IO Unit := do
-  let init : Drive.Txn.DState := { fixed := Drive.Txn.parseArgs args }
+  let init : Drive.Txn.DState := { fixed := Drive.Txn.parseArgs args, focus := Drive.Txn.parseFocus args }
   Proto.loop (← IO.getStdin) init Drive.Txn.step Drive.Txn.stats
